@@ -100,7 +100,13 @@ class EnvFS:
         if self.interfere_budget <= 0:
             return
         if self.held is NOINFO:
-            return                    # a half-released lock: nobody else can take or release it
+            # held/ exists but is empty: on a POSIX file system another locker's rename of its pending directory onto
+            # the empty directory SUCCEEDS, i.e. the lock can be taken in this window
+            if self.interfere_budget > 0 and self.cx.choose(self._fresh("env_takes_empty"), 0, 1):
+                self.interfere_budget -= 1
+                self.held = self.fresh_foreign()
+                self.env_log.append("taken_over_empty")
+            return
         ours = self._is_ours(self.held)
         if ours and not self.break_ours:
             return                    # nobody breaks the lock of a live holder
